@@ -27,7 +27,7 @@ RULE = ('a scenario issues 0-2 tickets through AuthTktCookieHelper.remember (or 
         'deletion, field splicing, timestamp re-spelling / arbitrary text) and runs identify/remember/forget sequences '
         'plus the response callbacks under a second helper configuration and clock; it is non-trivial when the '
         'presented cookie reaches the digest comparison (its fields parse) or the request has at least two '
-        'operations or is a history of at least two requests on one long-lived helper; distinct = distinct canonical scenario JSON')
+        'operations or is a history of at least two requests on one long-lived helper, or (ticket level) the raw userid needs quoting / contains % / has tokens or user data; distinct = distinct canonical scenario JSON')
 
 
 # ------------------------------------------------------------------------------------------------ instrumentation
@@ -141,7 +141,7 @@ def canon_identity(r):
             'userdata': r['userdata']}
 
 
-def run_request(cfg, ip, host, now, clock, cookie_header, ops, helper=None):
+def run_request(cfg, ip, host, now, clock, cookie_header, ops, helper=None, raw_encoders=False, raw_decoder=False):
     """one request through the real helper.  Returns dict(results, response, seen, hashlog, din_per_op, cookie_error)"""
     old_time, old_hash = A.time_mod, A.hashlib
     rec = HashRec()
@@ -149,6 +149,10 @@ def run_request(cfg, ip, host, now, clock, cookie_header, ops, helper=None):
     try:
         if helper is None:
             helper = helper_of(cfg)     # a fresh helper; otherwise a long-lived instance shared by a history
+            if raw_encoders:            # custom identity encoder: the raw text userid reaches the wire
+                helper.userid_type_encoders = {str: ('raw', lambda x: x)}
+            if raw_decoder:
+                helper.userid_type_decoders = dict(helper.userid_type_decoders, raw=lambda x: x)
         helper.now = now
         env = {'REMOTE_ADDR': ip, 'HTTP_HOST': host, 'SERVER_NAME': host.split(':')[0]}
         if cookie_header is not None:
@@ -357,6 +361,137 @@ def tokens_repr(toks):
     return [list(toks)] if toks else [[''], []]
 
 
+
+# ------------------------------------------------------------------------------------------------ ticket level
+def ticket_side_conditions(tokens, user_data):
+    """when the wire format can give (tokens, user_data) back exactly: no ',' or '!' inside a token, a '!' in the user
+    data only behind a tokens field, user data not ending in a double quote (parse_ticket strips them)"""
+    joined = ','.join(tokens)
+    return (all(',' not in t and '!' not in t for t in tokens) and (joined != '' or '!' not in user_data)
+            and not user_data.endswith('"'))
+
+
+def run_ticket_impl(t):
+    """AuthTicket(...).cookie_value() then parse_ticket(...) on the real code, hashes recorded"""
+    old_hash = A.hashlib
+    rec = HashRec()
+    A.hashlib = rec
+    out = {'value': None, 'value_err': None, 'parse': None}
+    try:
+        try:
+            tk = A.AuthTicket(t['secret'], t['userid'], t['ip'], tokens=tuple(t['tokens']), user_data=t['user_data'],
+                              time=t['time'], hashalg=t['alg'])
+            out['value'] = tk.cookie_value()
+        except Exception as e:
+            out['value_err'] = exc_name(e)
+            return out, rec
+        try:
+            ts, uid, toks, ud = A.parse_ticket(t['psecret'], out['value'], t['pip'], t['alg'])
+            out['parse'] = {'r': 'ok', 'ts': str(ts), 'userid': uid, 'tokens': list(toks), 'userdata': ud}
+        except A.BadTicket:
+            out['parse'] = {'r': 'bad'}
+        except Exception as e:
+            out['parse'] = {'r': 'raised', 'err': exc_name(e)}
+        return out, rec
+    finally:
+        A.hashlib = old_hash
+
+
+def ticket_model_case(t, hashtab, value):
+    mt = {k: t[k] for k in ('secret', 'userid', 'ip', 'tokens', 'user_data', 'time', 'psecret', 'pip')}
+    mt['hsize'] = ALGS[t['alg']]
+    return {'ticket': mt, 'hash': hashtab, 'uni': uni_table(value, t['ip'], t['pip'], t['userid'])}
+
+
+def run_ticket(sc):
+    t = sc['ticket']
+    out, rec = run_ticket_impl(t)
+    hashtab = {inp.hex(): dig.hex() for alg, inp, dig in rec.log}
+    item = {'mc': ticket_model_case(t, hashtab, out['value']), 'impl': out,
+            'cmp': (lambda mo, out=out: None if {k: mo.get(k) for k in ('value', 'value_err', 'parse')} == out else 'ticket-level result differs')}
+    pr = out['parse'] or {'r': 'raised', 'err': out['value_err']}
+    fin = {'results': [{'r': {'ok': 'id', 'bad': 'none'}.get(pr['r'], 'raised'), 'err': pr.get('err')}], 'response': [], 'cookie_error': None,
+           'seen': out['value']}
+    return {'issued': [], 'reqs': [], 'items': [item], 'header': None, 'value': out['value'], 'final': fin, 'ticket_out': out}
+
+
+def oracle_ticket(sc, ex):
+    """ticket level: what AuthTicket signed is what parse_ticket returns (same secret, address, algorithm), nothing else parses"""
+    t, out = sc['ticket'], ex['ticket_out']
+    viol = []
+    if not ip_ok(t['ip']) or not ip_ok(t['pip']) or not (0 <= t['time'] < 2 ** 32):
+        return viol
+    if out['value'] is None:
+        viol.append(('AuthTicket.cookie_value raises %s' % out['value_err'], None))
+        return viol
+    pr = out['parse']
+    if pr['r'] == 'raised':
+        viol.append(('parse_ticket raises %s' % pr['err'], None))
+        return viol
+    same = (t['secret'], t['ip']) == (t['psecret'], t['pip'])
+    if not same:
+        if pr['r'] == 'ok':
+            viol.append(('parse_ticket accepts a ticket signed under another secret/address', None))
+        return viol
+    if ticket_side_conditions(t['tokens'], t['user_data']):
+        exp = {'r': 'ok', 'ts': str(t['time']), 'userid': t['userid'], 'tokens': list(t['tokens']) or [''], 'userdata': t['user_data']}
+        if pr != exp:
+            viol.append(('parse_ticket(cookie_value()) returns %s, issued %s' % (json.dumps(pr, ensure_ascii=True)[:300],
+                                                                              json.dumps(exp, ensure_ascii=True)[:300]), None))
+    elif pr['r'] == 'ok' and pr['userid'] != t['userid']:
+        viol.append(('parse_ticket returns userid %r, issued %r' % (pr['userid'], t['userid']), None))
+    return viol
+
+
+def model_items(ex):
+    """what goes to the driver for an executed scenario: [{'mc': case|None, 'cmp': reply -> None|why, 'impl': view}]"""
+    items = list(ex.get('items', []))
+    for cfg, ip, host, now, clock, ops, out in ex['reqs']:
+        if out.get('ticket_item'):
+            items.append(out['ticket_item'])
+        elif out['cookie_error']:
+            continue
+        else:
+            items.append({'mc': model_case(cfg, ip, host, now, clock, out['seen'], ops, out['hash']), 'impl': impl_view(out),
+                          'cmp': (lambda mo, out=out: compare(out, mo))})
+    return items
+
+
+AWKWARD_UIDS = ['adm%69n', '%2541', 'caf\u00e9%c3%a9', '%', '%%', '%4', '%zz', 'a%20b', 'a b', 'a!b', 'a,b', 'a+b', '"quoted"', "it's",
+                '\u00e9', '\u65e5\u672c%E6', '%E6%97%A5', '%00', 'x%2', '100%', '%25', '%2525', 'a/b', 'a\\b', '', 'bob', '\u0663', '%C3', 'a%0Ab',
+                ' lead', 'trail ', '%e9', 'tab\there', '%41%42', 'a%2Fb', '%F0%9F%98%80', '%ff', '5', '-12']
+AWKWARD_TOKENS = [[], ['a'], ['a', 'b'], ['x%41'], ['a b'], ['\u00e9'], ['a+b', 'c'], ['%2C'], [''], ['a!b'], ['a,b'], ['"q"', 'z']]
+AWKWARD_DATA = ['', 'x', 'a%41', '%2541', 'a!b', 'd|e', '\u00e9', 'ends"', 'a b,c', 'userid_type:raw', 'k=v%3D', "'"]
+
+
+def gen_ticket(rng):
+    r = rng.random()
+    uid = rng.choice(AWKWARD_UIDS) if r < 0.6 else vfutil.rand_text(rng, 10, alphabet=list('%0123456789abcdefABCDEF!,+ "xyz\u00e9\u65e5'))
+    if rng.random() < 0.15:
+        uid = uid + rng.choice(AWKWARD_UIDS)
+    secret = rng.choice(SECRETS)
+    ip = rng.choice(IPS4 + IPS6 + ['0.0.0.0', '0.0.0.0'])
+    t = {'secret': secret, 'userid': uid, 'ip': ip, 'tokens': list(rng.choice(AWKWARD_TOKENS)), 'user_data': rng.choice(AWKWARD_DATA),
+         'time': rng.choice([c for c in CLOCKS if c < 2 ** 32]), 'alg': rng.choice(list(ALGS)), 'psecret': secret, 'pip': ip}
+    k = rng.random()
+    if k < 0.1:
+        t['psecret'] = rng.choice(SECRETS)
+    elif k < 0.2:
+        t['pip'] = rng.choice(IPS4 + IPS6)
+    return {'kind': 'ticket', 'ticket': t}
+
+
+def small_scope_tickets():
+    """every combination of 20 awkward raw userids x 6 token lists x 6 user data texts, signed and parsed back"""
+    out = []
+    for uid in AWKWARD_UIDS[:20]:
+        for toks in AWKWARD_TOKENS[:6]:
+            for ud in AWKWARD_DATA[:6]:
+                out.append({'kind': 'ticket-small-scope', 'ticket': {'secret': 'secret', 'userid': uid, 'ip': '0.0.0.0', 'tokens': list(toks),
+                            'user_data': ud, 'time': 1000, 'alg': 'md5', 'psecret': 'secret', 'pip': '0.0.0.0'}})
+    return out
+
+
 # ------------------------------------------------------------------------------------------------ scenario execution
 def quote_cookie(name, value, mode):
     """the Cookie header text a client sends for `value` (text) in one of several spellings"""
@@ -453,6 +588,24 @@ def build_header(name, ck, issued, dszs, infos):
     return header, value
 
 
+def issue_request(iss, helper=None):
+    """run the issuing request of a scenario; a 'raw' issue uses a helper with an identity userid encoder and is
+    compared with the model at ticket level (AuthTicket.cookie_value of the raw userid)"""
+    cfg = iss['cfg']
+    ops = [{'op': 'remember', 'uid': iss['uid'], 'max_age': iss.get('max_age'), 'tokens': iss['tokens']}]
+    raw = bool(iss.get('raw'))
+    out = run_request(cfg, iss['ip'], iss['host'], iss['clock'], iss['clock'], None, ops, helper=None if raw else helper, raw_encoders=raw)
+    r = out['results'][0]
+    if raw:
+        val = r['cookies'][0]['value'] if r['r'] == 'headers' and r['cookies'] else None
+        eip = eff_ip(cfg, iss['ip'])
+        t = {'secret': cfg['secret'], 'userid': iss['uid']['v'], 'ip': eip, 'tokens': list(iss['tokens']), 'user_data': 'userid_type:raw',
+             'time': iss['clock'], 'alg': cfg['alg'], 'psecret': cfg['secret'], 'pip': eip}
+        out['ticket_item'] = {'mc': ticket_model_case(t, out['hash'], val), 'impl': {'value': val},
+                              'cmp': (lambda mo, val=val: None if val is None or mo.get('value') == val else 'issued value (raw userid) differs')}
+    return ops, out
+
+
 def run_multi(sc):
     """a HISTORY of requests against long-lived helper instances (one per entry of sc['helpers']); every request is
     also answered by a fresh helper of the same configuration, for the history-independence clause of the oracle"""
@@ -461,10 +614,8 @@ def run_multi(sc):
     for iss in sc.get('issues', []):
         cfg = iss['cfg']
         dszs.append(ALGS[cfg['alg']] * 2)
-        ops = [{'op': 'remember', 'uid': iss['uid'], 'max_age': iss.get('max_age'), 'tokens': iss['tokens']}]
         h = iss.get('h')
-        out = run_request(cfg, iss['ip'], iss['host'], iss['clock'], iss['clock'], None, ops,
-                          helper=helpers[h] if h is not None else None)
+        ops, out = issue_request(iss, helper=helpers[h] if h is not None else None)
         reqs.append((cfg, iss['ip'], iss['host'], iss['clock'], iss['clock'], ops, out))
         r = out['results'][0]
         if r['r'] == 'headers' and r['cookies']:
@@ -493,8 +644,7 @@ def run_scenario(sc):
             issued.append(mint(iss))
             infos.append(None)
             continue
-        ops = [{'op': 'remember', 'uid': iss['uid'], 'max_age': iss.get('max_age'), 'tokens': iss['tokens']}]
-        out = run_request(cfg, iss['ip'], iss['host'], iss['clock'], iss['clock'], None, ops)
+        ops, out = issue_request(iss)
         reqs.append((cfg, iss['ip'], iss['host'], iss['clock'], iss['clock'], ops, out))
         r = out['results'][0]
         if r['r'] == 'headers' and r['cookies']:
@@ -504,7 +654,7 @@ def run_scenario(sc):
             issued.append(None)
             infos.append(None)
     header, value = build_header(sc['cfg']['name'], sc.get('cookie'), issued, dszs, infos)
-    out = run_request(sc['cfg'], sc['ip'], sc['host'], sc['now'], sc['clock'], header, sc['ops'])
+    out = run_request(sc['cfg'], sc['ip'], sc['host'], sc['now'], sc['clock'], header, sc['ops'], raw_decoder=bool(sc.get('raw_decoder')))
     reqs.append((sc['cfg'], sc['ip'], sc['host'], sc['now'], sc['clock'], sc['ops'], out))
     return {'issued': issued, 'reqs': reqs, 'header': header, 'value': value, 'final': out}
 
@@ -587,6 +737,16 @@ def oracle(sc, ex):
     same_helper = unchanged is not None and unchanged['cfg']['secret'] == cfg['secret'] and \
         unchanged['cfg']['alg'] == cfg['alg'] and unchanged['eip'] == eip
     live = same_helper and (not cfg['timeout'] or sc['now'] <= unchanged['ts'] + cfg['timeout'])
+    mint_exact = None   # a ticket minted with AuthTicket (raw userid, no type tag), presented unchanged to the same helper
+    if ck and ck.get('base') is not None and not ck.get('edits') and seen is not None and ck['base'] < len(issues):
+        iss0 = issues[ck['base']]
+        if 'mint' in iss0 and ex['issued'][ck['base']] == seen:
+            m, c2 = iss0['mint'], iss0['cfg']
+            if (c2['secret'], c2['alg'], eff_ip(c2, iss0['ip'])) == (cfg['secret'], cfg['alg'], eip) and 'userid_type:' not in m['user_data'] \
+                    and ticket_side_conditions(m['tokens'], m['user_data']) and cfg['reissue'] is None and iss0['clock'] < 2 ** 32 \
+                    and (not cfg['timeout'] or sc['now'] <= iss0['clock'] + cfg['timeout']):
+                mint_exact = {'uid': {'t': 'str', 'v': m['userid']}, 'tokens': list(m['tokens']) or [''], 'ts': str(iss0['clock']),
+                              'userdata': m['user_data']}
     shift = None      # F-C09d: same digest input bytes as an issued ticket, other (ts, userid, address)
     if f is not None and cfg['include_ip'] and ':' in eip:
         mine = spec_input(eip, f['ts'], cfg['secret'], f['userid'], f['tokens'], f['user_data'])
@@ -600,6 +760,11 @@ def oracle(sc, ex):
     for k, (op, r) in enumerate(zip(ops, out['results'])):
         where = 'op %d (%s)' % (k, op['op'])
         if op['op'] == 'identify':
+            if mint_exact is not None:
+                if not (r['r'] == 'id' and all(r[k] == mint_exact[k] for k in ('uid', 'tokens', 'ts', 'userdata'))):
+                    viol.append(('%s does not yield exactly the raw identity the ticket was signed for: got %s, signed %s' % (
+                        where, json.dumps(r, ensure_ascii=True)[:300], json.dumps(mint_exact, ensure_ascii=True)[:300]), None))
+                continue
             if r['r'] == 'raised':
                 if minted:
                     continue          # tickets signed with the helper's own secret outside remember: outside the statement
@@ -699,6 +864,9 @@ def oracle_multi(sc, ex):
 
 def last_view(sc):
     """(cfg, ip, ops) of the (last) request of a scenario, for the distribution counters"""
+    if 'ticket' in sc:
+        t = sc['ticket']
+        return {'alg': t['alg'], 'include_ip': True}, t['pip'], [{'op': 'parse_ticket'}]
     if 'requests' in sc:
         rq = sc['requests'][-1]
         return sc['helpers'][rq['h']], rq['ip'], rq['ops']
@@ -706,6 +874,10 @@ def last_view(sc):
 
 
 def nontrivial(sc, ex):
+    if 'ticket' in sc:
+        from urllib.parse import quote
+        t = sc['ticket']
+        return quote(t['userid']) != t['userid'] or '%' in t['userid'] or bool(t['tokens']) or bool(t['user_data'])
     if 'requests' in sc:
         return len(sc['requests']) >= 2
     out = ex['final']
@@ -881,9 +1053,11 @@ def small_scope_histories():
 def gen_scenario(rng, kind=None):
     kind = kind or rng.choice(['valid', 'valid', 'valid', 'boundary', 'boundary', 'edit', 'edit', 'edit', 'splice', 'tsfield',
                                'other_helper', 'arbitrary', 'mint', 'history', 'history', 'nocookie', 'badip', 'quoting',
-                               'shift', 'multi', 'multi', 'multi'])
+                               'shift', 'multi', 'multi', 'multi', 'ticket', 'ticket', 'ticket', 'rawid', 'rawid'])
     if kind == 'multi':
         return gen_multi(rng)
+    if kind == 'ticket':
+        return gen_ticket(rng)
     cfgA = gen_cfg(rng)
     ipA = gen_ip(rng)
     host = rng.choice(HOSTS)
@@ -959,13 +1133,20 @@ def gen_scenario(rng, kind=None):
         if rng.random() < 0.3:
             sc['ops'] = gen_ops(rng)
     elif kind == 'mint':
-        ud = rng.choice(['userid_type:int', 'userid_type:b64unicode', 'userid_type:b64str', 'userid_type:unicode', '', 'x|userid_type:int',
+        ud = rng.choice(AWKWARD_DATA[:9]) if rng.random() < 0.4 else rng.choice(['userid_type:int', 'userid_type:b64unicode', 'userid_type:b64str', 'userid_type:unicode', '', 'x|userid_type:int',
                          'userid_type:int|userid_type:int', 'userid_type:nope', '|', 'userid_type:b64str|userid_type:int', 'a!b', 'userid_type:'])
-        uid = rng.choice(['5', ' 7 ', '1_0', 'abc', 'YWJj', 'YWI=', 'YQ==', 'YQ', 'Y', 'YW=Jj', '=YWJj', '////', 'w6k=', '/w==', 'é', '٣', '', 'a!b',
+        uid = rng.choice(AWKWARD_UIDS) if rng.random() < 0.45 else rng.choice(['5', ' 7 ', '1_0', 'abc', 'YWJj', 'YWI=', 'YQ==', 'YQ', 'Y', 'YW=Jj', '=YWJj', '////', 'w6k=', '/w==', 'é', '٣', '', 'a!b',
                           'Y W\nJj', 'YWJjZA===', '0x10', '+5', '-0', 'YWJj' * 3, 'a%b', 'Ā'])
-        toks = rng.choice([[], ['a'], ['a', 'b'], ['', 'a'], ['a b'], ['é'], ['a', '', 'b'], ['1x']])
+        toks = rng.choice([[], ['a'], ['a', 'b'], ['', 'a'], ['a b'], ['é'], ['a', '', 'b'], ['1x'], ['x%41'], ['a+b', 'c']])
         sc['issues'] = [{'cfg': cfgA, 'ip': ipA, 'host': host, 'clock': t0, 'mint': {'userid': uid, 'tokens': toks, 'user_data': ud}}]
         sc['ops'] = rng.choice([[{'op': 'identify'}], [{'op': 'identify'}, {'op': 'identify'}], gen_ops(rng)])
+    elif kind == 'rawid':
+        # a helper with identity userid_type_encoders: the raw text id reaches the wire through remember()
+        sc['issues'][0]['raw'] = True
+        sc['issues'][0]['uid'] = {'t': 'str', 'v': rng.choice(AWKWARD_UIDS)}
+        sc['issues'][0]['tokens'] = gen_tokens(rng)
+        sc['raw_decoder'] = rng.random() < 0.5
+        sc['ops'] = rng.choice([[{'op': 'identify'}], [{'op': 'identify'}, {'op': 'identify'}]])
     elif kind == 'history':
         sc['cfg'] = dict(cfgA, reissue=rng.choice([0, 1, 5]), timeout=rng.choice([None, None, 1000]))
         sc['now'] = t0 + sc['cfg']['reissue'] + rng.choice([0, 1, 1, 1, 3])
@@ -1010,6 +1191,9 @@ def gen_scenario(rng, kind=None):
 # ------------------------------------------------------------------------------------------------ run / search / replay
 def evaluate(sc):
     """(execution, violations[(detail, finding)]) — never raises"""
+    if 'ticket' in sc:
+        ex = run_ticket(sc)
+        return ex, oracle_ticket(sc, ex)
     if 'requests' in sc:
         ex = run_multi(sc)
         return ex, oracle_multi(sc, ex)
@@ -1020,7 +1204,7 @@ def evaluate(sc):
 def violation_record(sc, ex, vs):
     detail, fid = vs[0]
     v = {'case': sc, 'impl': {'seen': ex['final'].get('seen'), 'results': ex['final']['results'], 'response': ex['final'].get('response'),
-                              'header': ex['header']},
+                              'header': ex['header'], 'ticket': ex.get('ticket_out')},
          'expected': 'C09: issued tickets are accepted unchanged until they expire; anything else never raises and yields nothing or the original identity; reissue/forget/attributes as configured',
          'detail': '; '.join(d for d, _ in vs[:4])}
     if ex.get('multi'):
@@ -1094,27 +1278,21 @@ def process(ctx, scenarios, dist, use_model=True):
                             rec = violation_record(small, ex2, vs2)
                 if nunk < 25:
                     viol.append(rec)
-        for mc in model_cases_of(ex):
-            if mc is not None:
-                mcases.append(mc)
-                owners.append(len(execs) - 1)
+        ex['_items'] = model_items(ex)
+        mcases += [it['mc'] for it in ex['_items']]
     if use_model and ctx.driver_path and mcases:
         replies = ctx.run_model(mcases)
-        # regroup per scenario
-        per = {}
         k = 0
         for sc_i, (sc, ex) in enumerate(execs):
             bad = None
-            for (cfg, ip, host, now, clock, ops, out) in ex['reqs']:
-                if out['cookie_error']:
-                    continue
+            for it in ex['_items']:
                 mo = replies[k]; k += 1
-                c = compare(out, mo)
+                c = it['cmp'](mo)
                 if c == 'unmodelled':
                     vfutil.bump(dist['results'], 'model: unmodelled path')
                     continue
                 if c and not bad:
-                    bad = {'case': sc, 'impl': impl_view(out), 'model': model_view(mo) if 'error' not in mo else mo, 'why': c}
+                    bad = {'case': sc, 'impl': it['impl'], 'model': (model_view(mo) if 'results' in mo else mo), 'why': c}
             if bad:
                 if len(mism) < 20:
                     mism.append(bad)
@@ -1169,6 +1347,8 @@ def run(ctx):
         rng.shuffle(hist)
         hist = hist[:300]
     scenarios += hist
+    tks = small_scope_tickets()
+    scenarios += tks
     res = {'evals': 0, 'agree': 0, 'mism': [], 'viol': [], 'keys': set()}
     nontriv_total = 0
     CH = 4000
@@ -1195,7 +1375,8 @@ def run(ctx):
             'notes': ['%d corpus scenarios, %d generated, %d single-character edits of three issued tickets (%s)' % (
                 ncorpus, n, len(ex_edits), 'all' if ctx.tier == 'thorough' else 'a sample'),
                 'every request of a scenario (issuing ones too) is one driver line; first-hash inputs are compared byte for byte',
-                '%d small-scope histories (all sequences of <= 3 requests over %d request kinds x 4 configurations on ONE long-lived helper; %s) plus the random multi-request histories: every request must get the answer of a fresh helper' % (len(hist), len(REQ_KINDS), 'all' if ctx.tier == 'thorough' else 'a sample')],
+                '%d small-scope histories (all sequences of <= 3 requests over %d request kinds x 4 configurations on ONE long-lived helper; %s) plus the random multi-request histories: every request must get the answer of a fresh helper' % (len(hist), len(REQ_KINDS), 'all' if ctx.tier == 'thorough' else 'a sample'),
+                '%d ticket-level small-scope cases (20 awkward raw userids x 6 token lists x 6 user data texts: AuthTicket.cookie_value -> parse_ticket must return exactly what was signed) plus the random ticket-level / raw-id-helper streams' % len(tks)],
             'assumptions': ['hash functions are uninterpreted in the model: hashlib answers through a recorded table',
                             'the Unicode database (whitespace / decimal digit of non-ASCII characters) is a table from unicodedata',
                             'WebOb parses the Cookie header and serialises Set-Cookie: exercised, not modelled',
@@ -1212,6 +1393,7 @@ def search(ctx):
     rng = ctx.rng
     dist = new_dist()
     scs = [c for _, c in ctx.corpus()]
+    scs += small_scope_tickets()
     scs += small_scope_histories()
     scs += exhaustive_edits(rng, 100000)
     base_cfg = {'secret': 'secret', 'name': 'auth_tkt', 'secure': False, 'include_ip': False, 'timeout': None, 'reissue': None,
@@ -1248,17 +1430,14 @@ def replay(ctx, rep):
     models = None
     mism = None
     if ctx.driver_path:
-        mcs = [m for m in model_cases_of(ex) if m is not None]
-        replies = ctx.run_model(mcs) if mcs else []
-        models = [model_view(m) if 'error' not in m else m for m in replies]
-        k = 0
-        for (cfg, ip, host, now, clock, ops, out) in ex['reqs']:
-            if out['cookie_error']:
-                continue
-            c = compare(out, replies[k]); k += 1
+        items = model_items(ex)
+        replies = ctx.run_model([it['mc'] for it in items]) if items else []
+        models = [(model_view(m) if 'results' in m else m) for m in replies]
+        for it, mo in zip(items, replies):
+            c = it['cmp'](mo)
             if c and c != 'unmodelled':
                 mism = c
     fin = ex['final']
-    return {'case': sc, 'cookie_header': ex['header'], 'cookie_seen': fin.get('seen'), 'impl': impl_view(fin), 'model': models,
+    return {'case': sc, 'cookie_header': ex['header'], 'cookie_seen': fin.get('seen'), 'impl': (impl_view(fin) if 'st' in fin else ex.get('ticket_out')), 'model': models,
             'spec': [{'detail': d, 'finding': f} for d, f in vs], 'mismatch': mism,
             'violates': any(f is None for _, f in vs), 'known_finding': sorted({f for _, f in vs if f})}
